@@ -16,9 +16,11 @@
   versions of the code.  The two clauses the pinned tree violates are stated as `Prop`s of the flag,
   proved for `true` and refuted with a concrete history for `false`.
 
-  Named residue (not provable with a model of this kind, stated in the evidence): the atomic steps are
-  whole API calls and whole task steps; races between the worker thread and the caller thread *inside*
-  one step (CPython bytecode interleavings on the shared `JobStatus`) are outside the model.
+  Granularity: in the first parts the atomic steps are whole API calls and whole task steps.  The last part
+  ("Round 4", model `Model/C18Race.lean`) removes that for the asynchronous run: there the atoms are single
+  accesses to the memory the caller thread and the worker thread share, and the theorems are for ALL schedules
+  of those accesses (one caller thread; `execute_async` itself atomic; no user callback) — for the code with
+  `fixes/C18-status-race.diff`, with the negation proved for the code before it.
 -/
 import PercevalModel.Lemmas.C18
 import PercevalModel.Lemmas.C18Ext
